@@ -89,9 +89,9 @@ class Engine:
             "zw_value::cmp": self.value_cmp,
             "zw_value::as<value_closure>": lambda ev, o, a: a[0] if getattr(a[0], "_cls", None) == "value_closure" else None,
             "zw_value::is<value_closure>": lambda ev, o, a: getattr(o, "_cls", None) == "value_closure",
-            "builtin::build_exec": lambda ev, o, a: (ev.new_object("op_apply", [a[0], a[1], False]) if o.kind == "apply" else LeafOp(o, a[1])) if o.kind not in ("pred-top",) else None,
+            "builtin::build_exec": lambda ev, o, a: (ev.new_object("op_apply", [a[0], a[1], False]) if o.kind == "apply" else LeafOp(o, a[1])) if not o.kind.startswith("pred-") else None,
             "ctor:scon": lambda ev, o, a: self.new_scon(),
-            "builtin::build_pred": lambda ev, o, a: LeafPred(o) if o.kind in ("pred-top",) else None,
+            "builtin::build_pred": lambda ev, o, a: LeafPred(o) if o.kind.startswith("pred-") else None,
             "method:next": self.leaf_next,
             "method:state_con": lambda ev, o, a: self.leaf_cd(o, a, "state_con"),
             "method:state_des": lambda ev, o, a: self.leaf_cd(o, a, "state_des"),
@@ -202,6 +202,14 @@ class Engine:
                 ev.call(self.push[0], other, [El(o.bi.arg + "2")])
                 queue.append(other)
                 return stk
+            if k == "flip":
+                top = stk.m_values.items[-1] if stk.m_values.items else None
+                tn = self.show(top) if top is not None else ""
+                if tn not in ("a", "b"):
+                    continue
+                ev.call(self.pop[0], stk, [])
+                ev.call(self.push[0], stk, [El("b" if tn == "a" else "a")])
+                return stk
             if k == "inc":
                 top = stk.m_values.items[-1] if stk.m_values.items else None
                 tn = self.show(top) if top is not None else ""
@@ -235,7 +243,13 @@ class Engine:
             raise Broken("result() on an object the engine model does not know")
         stk = a[1]
         top = stk.m_values.items[-1] if stk.m_values.items else None
-        yes = top is not None and self.show(top) == str(o.bi.arg)
+        if o.bi.kind in ("pred-eq2", "pred-ne2"):
+            if len(stk.m_values.items) < 2:
+                raise Thrown("comparison word on a stack of fewer than two values")
+            same = self.show(stk.m_values.items[-1]) == self.show(stk.m_values.items[-2])
+            yes = same if o.bi.kind == "pred-eq2" else not same
+        else:
+            yes = top is not None and self.show(top) == str(o.bi.arg)
         for e_ in self.prog.enums.values():
             if e_["q"] == "pred_result":
                 for c in e_["consts"]:
@@ -281,11 +295,19 @@ class Engine:
 
     BUILTIN_WORDS = {"bw": ("push", "B!"), "bdrop": ("drop",)}
 
+    def vocabulary(self):
+        from cxxobj import MapObj
+        pk = {"top?": "pred-top", "eq2?": "pred-eq2", "ne2?": "pred-ne2"}
+        voc = Obj("vocabulary")
+        voc.words = MapObj([(StdStr(n.encode()), Builtin(pk.get(d[0], d[0]), *d[1:])) for n, d in self.BUILTIN_WORDS.items()])
+        return voc
+
     def root_bindings(self):
         """the root scope as the library builds it: one binding per builtin word of the vocabulary"""
         from cxxobj import MapObj
         voc = Obj("vocabulary")
-        voc.words = MapObj([(StdStr(n.encode()), Builtin(*d)) for n, d in self.BUILTIN_WORDS.items()])
+        pk = {"top?": "pred-top", "eq2?": "pred-eq2", "ne2?": "pred-ne2"}
+        voc.words = MapObj([(StdStr(n.encode()), Builtin(pk.get(d[0], d[0]), *d[1:])) for n, d in self.BUILTIN_WORDS.items()])
         return self.ev.new_object("bindings", [voc])
 
     def simplified(self, spec):
@@ -306,7 +328,12 @@ class Engine:
         lay = ev.new_object("layout", [0])
         origin = ev.new_object("op_origin", [lay])
         try:
-            top = ev.call(self.be, None, [tree if tree is not None else self.build(spec), lay, Sym.of("rdv"), origin, self.root_bindings(), ev.new_object("uprefs")])
+            # the library's own entry point: tree::build_exec (layout, upstream, vocabulary) makes the root scope of builtin words and
+            # the query's top scope below it
+            pub = [f for f in self.prog.funcs.values() if f["q"] == "tree::build_exec" and f.get("body") is not None and len(f.get("params", [])) == 3]
+            if len(pub) != 1:
+                raise Broken("anchor tree::build_exec (layout, upstream, vocabulary) vanished")
+            top = ev.call(pub[0], tree if tree is not None else self.build(spec), [lay, origin, self.vocabulary()])
         except Thrown as x:
             return ("error", "compile: %s" % x)
         sc = self.new_scon()
@@ -348,6 +375,13 @@ class Engine:
             return "<closure>"
         if getattr(v, "_cls", None) == "value_str":
             return '"%s"#%s' % (v.m_str.b.decode("latin-1") if hasattr(getattr(v, "m_str", None), "b") else "?", getattr(v, "m_pos", "?"))
+        if getattr(v, "_cls", None) == "value_cst":
+            c = getattr(getattr(v, "m_cst", None), "m_value", None)
+            if c is None:
+                return "<value_cst>"
+            sg = getattr(c, "m_sign", None)
+            signed = (sg[1] if isinstance(sg, tuple) else sg) in ("sign", 1)
+            return str(int(c.m_i if signed and hasattr(c, "m_i") else c.m_u))
         if getattr(v, "_cls", None) == "value_seq":
             s_ = getattr(v, "m_seq", None)
             return "[" + " ".join(self.show(x) for x in (s_.items if hasattr(s_, "items") else s_ or [])) + "]"
@@ -449,6 +483,14 @@ def _ref(spec, s, scopes):
             yield s[:-1] + (str(int(s[-1]) + 1),), scopes
     elif op == "top?":
         if s and s[-1] == str(spec[1]):
+            yield s, scopes
+    elif op == "flip":
+        if s and s[-1] in ("a", "b"):
+            yield s[:-1] + ("b" if s[-1] == "a" else "a",), scopes
+    elif op in ("eq2?", "ne2?"):
+        if len(s) < 2:
+            raise RefError("underflow")
+        if (str(s[-1]) == str(s[-2])) == (op == "eq2?"):
             yield s, scopes
     elif op == "NOP":
         yield s, scopes
